@@ -213,13 +213,36 @@ def r19(F):
     ov = Origins(vs)
     okn = ("field", "constraint") in ov.at(nt["args"][1], nb) or any(c.endswith("derive_shape") for c in calls_in(ov.at(nt["args"][1], nb)))
     tsw = [(bb, vs.term(bb)) for bb in larm if vs.term(bb)["k"] == "switch" and vs.term(bb).get("enum") == SHAPE and cfg.dominates(vs, nb, bb)]
-    need(tsw, "result of narrow is not inspected")
-    errpush = {bb for bb, t2 in vs.calls() if callee(t2) == "alloc::vec::Vec::push" and ("field", "err_stack") in ov.at(t2["args"][0], bb)}
-    inserts = {bb for bb, t2 in vs.calls() if callee(t2).endswith("BTreeMap::insert") and bb in larm}
-    sb3, st3 = tsw[0]
-    te_edge = cfg.switch_edge(st3, variant="TypeErr")
-    ok = bool(errpush & cfg.reachable(vs, te_edge)) and not (cfg.reachable(vs, te_edge, removed=errpush) & inserts) and util.must_pass(vs, te_edge, errpush, exits=cfg.exits(vs))
-    r.inst("Checker:Let:TypeErr", vs.where(sb3), ok and okn, "a constraint mismatch is pushed to err_stack and the name is not bound" if ok and okn else "a TypeErr from narrow is not recorded")
+    if tsw:
+        errpush = {bb for bb, t2 in vs.calls() if callee(t2) == "alloc::vec::Vec::push" and ("field", "err_stack") in ov.at(t2["args"][0], bb)}
+        inserts = {bb for bb, t2 in vs.calls() if callee(t2).endswith("BTreeMap::insert") and bb in larm}
+        sb3, st3 = tsw[0]
+        te_edge = cfg.switch_edge(st3, variant="TypeErr")
+        ok = bool(errpush & cfg.reachable(vs, te_edge)) and not (cfg.reachable(vs, te_edge, removed=errpush) & inserts) and util.must_pass(vs, te_edge, errpush, exits=cfg.exits(vs))
+        r.inst("Checker:Let:TypeErr", vs.where(sb3), ok and okn, "a constraint mismatch is pushed to err_stack and the name is not bound" if ok and okn else "a TypeErr from narrow is not recorded")
+    else:
+        # the result is looked at somewhere else (a helper that records the error, a common tail): decide by evaluation - with this
+        # narrowing answering TypeErr, something is pushed onto err_stack afterwards and no symbol is bound afterwards
+        from .. import absint as AI
+        terr = ("e", SHAPE, "TypeErr", (("0", AI.U), ("1", AI.U)))
+        heavy = {n_ for n_ in F.fns if "derive_" in n_ or "DeriveShape" in n_ or "::narrow" in n_ or "::equivalent" in n_ or "resolve_import" in n_}
+        sim = AI.Sim(F, site=(vs.name, nb), forced=terr, depth=4, opaque=heavy)
+        try:
+            sim.run(vs, [AI.U] * vs.nargs)
+        except AI.Lossy as e:
+            need(False, "Checker::visit_statement: %s" % e)
+        def calls_after(pred):
+            out = []
+            for n_, b_ in sim.visited_fired:
+                f_ = F.fns.get(n_)
+                if f_ is not None and f_.term(b_)["k"] == "call" and pred(f_, b_, f_.term(b_)):
+                    out.append((n_, b_))
+            return out
+        pushed = calls_after(lambda f_, b_, t_: callee(t_) == "alloc::vec::Vec::push" and ("field", "err_stack") in Origins(f_).at(t_["args"][0], b_))
+        bound = calls_after(lambda f_, b_, t_: callee(t_).endswith("BTreeMap::insert") and "typecheck" in f_.name)
+        need(sim.visited_fired, "Checker::visit_statement: nothing is evaluated after the narrowing")
+        ok = bool(pushed) and not bound
+        r.inst("Checker:Let:TypeErr", vs.where(nb), ok and okn, "a constraint mismatch is pushed to err_stack and the name is not bound" if ok and okn else "a TypeErr from narrow is not recorded")
     res = F.fn("ucglib::ast::typecheck::Checker::result")
     ie = [(bb, t2) for bb, t2 in res.calls() if callee(t2).endswith("::is_empty")]
     need(ie, "Checker::result does not test err_stack")
